@@ -21,16 +21,11 @@ Section Model.
   Context {T : Type} (O : NumOps T).
   Context {BS : Type}.                      (* internal state of a bias *)
 
-  Definition vec3 := (T * T * T)%type.
-  Definition v3zero : vec3 := (n0 O, n0 O, n0 O).
-  Definition v3add (a b : vec3) : vec3 :=
-    let '(a1, a2, a3) := a in let '(c1, c2, c3) := b in (nadd O a1 c1, nadd O a2 c2, nadd O a3 c3).
-  Definition v3scale (s : T) (g : vec3) : vec3 :=
-    let '(x, y, z) := g in (nmul O s x, nmul O s y, nmul O s z).
-
   (* one component (cvc) of a scalar variable as the engine presents it at a step: coefficient and
-     exponent (componentCoeff, componentExp), its value and its atomic gradients (atom, gradient) *)
-  Record cvc_in := mkCvc { ci_coeff : T; ci_np : nat; ci_val : T; ci_grads : list (nat * vec3) }.
+     exponent (componentCoeff, componentExp), its value and its atomic gradients, one entry
+     (coordinate index 3*atom + axis, derivative) per Cartesian coordinate of each atom of its groups
+     (rvector arithmetic in the C++ is componentwise, so coordinates are independent accumulators) *)
+  Record cvc_in := mkCvc { ci_coeff : T; ci_np : nat; ci_val : T; ci_grads : list (nat * T) }.
 
   Fixpoint ipow (x : T) (n : nat) : T :=
     match n with 0%nat => n1 O | S k => nmul O x (ipow x k) end.
@@ -270,18 +265,19 @@ Section Model.
     if v_active v then set_vf v (nadd O (nadd O (n0 O) (v_fb v)) (v_fba v)) else set_vf v (n0 O).
 
   (* colvar::communicate_forces, scalar branch, and atom_group::apply_colvar_force: the force that
-     reaches atom a, accumulated in the order of the loops over variables, components and atoms *)
+     reaches a coordinate, accumulated in the order of the loops over variables, components and atoms *)
   Definition cvc_force (f : T) (c : cvc_in) : T :=
     nmul O (nmul O (nmul O f (ci_coeff c)) (nofZ O (Z.of_nat (ci_np c)))) (ipow (ci_val c) (ci_np c - 1)).
   Definition var_applies (v : var) : bool := v_active v && v_apply v.
-  Definition acc_grads (a : nat) (cf : T) (gs : list (nat * vec3)) (acc : vec3) : vec3 :=
-    fold_left (fun ac ag => if Nat.eqb (fst ag) a then v3add ac (v3scale cf (snd ag)) else ac) gs acc.
-  Definition acc_var (a : nat) (v : var) (acc : vec3) : vec3 :=
+  Definition acc_grads (a : nat) (cf : T) (gs : list (nat * T)) (acc : T) : T :=
+    fold_left (fun ac ag => if Nat.eqb (fst ag) a then nadd O ac (nmul O cf (snd ag)) else ac) gs acc.
+  Definition acc_var (a : nat) (v : var) (acc : T) : T :=
     if var_applies v then
       fold_left (fun ac c => acc_grads a (cvc_force (v_f v) c) (ci_grads c) ac) (v_cvcs v) acc
     else acc.
-  Definition atom_force (vs : list var) (a : nat) : vec3 :=
-    fold_left (fun ac v => acc_var a v ac) vs v3zero.
+  (* force on Cartesian coordinate a (= 3*atom + axis) *)
+  Definition coord_force (vs : list var) (a : nat) : T :=
+    fold_left (fun ac v => acc_var a v ac) vs (n0 O).
 
   (* ---- one call of colvarmodule::calc ----------------------------------------------------------- *)
   Record mstate := mkM { m_it : Z; m_first : bool; m_vars : list var; m_biases : list bias }.
